@@ -16,7 +16,7 @@ ASSUME = [
     "the ledger may contain leaf tasks and leaf resources only",
 ]
 KINDS = ["ok", "cyc", "dead", "ms", "grp", "galt", "altg"]
-DATED = [None, "start", "both", "end", "start+pin"]   # start+pin: the LAST leaf below the dated container overrides the inherited start with a later one of its own
+DATED = [None, "start", "both", "end", "start+pin", "mixdir"]   # mixdir: the last leaf below the first container runs BACKWARD (alap + an early end) among forward siblings;   # start+pin: the LAST leaf below the dated container overrides the inherited start with a later one of its own
 
 
 def forests(n, depth):
@@ -106,6 +106,21 @@ def to_spec(it):
 
     f = tuple(tuple_to(t) for t in it["f"]) if isinstance(it["f"], list) else it["f"]
     tasks = mk(f)
+    if it["dated"] == "mixdir" and not it["alap"]:
+        from mc.render import walk_tasks
+        below = []
+        for _f, c, _p in walk_tasks(tasks):   # the first container (at any depth) with two or more leaves that do work
+            if c.get("children"):
+                below = [t for _f2, t, _p2 in walk_tasks(c["children"]) if not t.get("children") and t.get("effort") and t.get("alloc") == ["r1"]]
+                if len(below) >= 2:
+                    break
+                below = []
+        if below:
+            below[-1]["prio"] = 900
+            below[-1]["sched"] = "alap"
+            below[-1]["end"] = "2025-01-06-11:00"
+            below[-1]["effort"] = 120   # whole slots 09:00-11:00: the forward siblings follow in later slots (no slot is shared)
+            below[-1].pop("deps", None)
     if it["dated"] == "start+pin" and state.get("pin_in"):
         from mc.render import walk_tasks
         below = [t for _f, t, _p in walk_tasks(state["pin_in"]["children"]) if not t.get("children")]
